@@ -127,8 +127,16 @@ impl Eval<'_> {
                     let f1 = run_after(&[], req, ent, self.extra_polls).expect("rerun");
                     let f2 = run_after(&[], req, ent, self.extra_polls).expect("rerun");
                     if f1.stable_repr() != f2.stable_repr() {
-                        eprintln!("MACHINERY ERROR: non-deterministic replay of {}", case_json(req, ent, self.extra_polls));
-                        std::process::exit(2);
+                        // not even reproducible from a fresh thread: process-wide state (or the
+                        // clock) decides the answer. The harness itself is deterministic -- this
+                        // never fires on the unchanged tree -- so it is the subject's doing.
+                        let extra = self.extra_polls;
+                        st.violation(order, format!("{}:not-reproducible", fi.key), format!("{} -- and the same request gives different responses when repeated (process-wide state or the clock decides)", fi.msg), || {
+                            let mut c = case_json(req, ent, extra);
+                            c["observed"] = obs.to_json();
+                            c
+                        });
+                        return;
                     }
                     // serve() is not a function of its inputs: look for the earlier call that matters
                     let recent: Vec<(Req, EntSpec)> = RECENT.with(|r| r.borrow().iter().cloned().collect());
@@ -170,6 +178,7 @@ fn ent(len: u64, etag: Option<&[u8]>, mtime: Option<std::time::SystemTime>, head
         mtime,
         headers,
         scripts,
+        hdr_mode: 0,
     }
 }
 
@@ -889,6 +898,42 @@ pub fn run_c04(run: &mut Run) -> Stats {
             }
         }
     });
+    // Linear family: the tag list split over TWO header lines (judged where "first line only" and
+    // "one combined list" give the same verdict: the matching tag on the first line, or on none).
+    let st4 = {
+        let mut st = Stats::new();
+        let mut order = 1u64 << 58;
+        for e in &etags {
+            let Some(tag) = e.clone() else { continue };
+            for mt in [None, Some(gen::t(gen::LM, 0))] {
+                let entity = ent(10, Some(&tag), mt, vec![], vec![]);
+                let others: [&[u8]; 3] = [b"\"zz\"", b"W/\"yy\"", b"\"zz\", \"yy\""];
+                for hdr in ["if-match", "if-none-match"] {
+                    for me in ["GET", "HEAD"] {
+                        for o1 in others {
+                            for o2 in others {
+                                for lines in [vec![&tag[..], o1], vec![&tag[..], o1, o2], vec![o1, o2], vec![&b"*"[..], o1], vec![&[&tag[..], b", ", o2].concat()[..], o1]].iter() {
+                                    let mut req = Req::new(me);
+                                    for l in lines {
+                                        req = req.with(hdr, l);
+                                    }
+                                    if mt.is_some() {
+                                        req = req.with(if hdr == "if-match" { "if-unmodified-since" } else { "if-modified-since" }, fmt_imf(gen::LM).as_bytes());
+                                    }
+                                    order += 1;
+                                    if let Some((_, m)) = ev.run(&req, &entity, &mut st, order) {
+                                        st.nontrivial(&(&req, ent_key(&entity)));
+                                        st.count(&format!("two-line-family:{}", if m.repeated { "not-judged" } else { "judged" }), 1);
+                                    }
+                                }
+                            }
+                        }
+                    }
+                }
+            }
+        }
+        st
+    };
     let mut total = par_for(outer.len() as u64, threads(), |i, st| {
         let (e, mt, ims, ius, me, big_is_im) = &outer[i as usize];
         let entity = ent(10, e.as_deref(), *mt, vec![], vec![]);
@@ -921,6 +966,7 @@ pub fn run_c04(run: &mut Run) -> Stats {
     });
     total.merge(st2);
     total.merge(st3);
+    total.merge(st4);
     total
 }
 
@@ -1740,6 +1786,26 @@ pub fn run_c15_serve(run: &mut Run) -> Stats {
             }
         }
     }
+    // entities whose add_headers looks at the map it is given, or replaces entries in it
+    for mode in [1u8, 2] {
+        for l in [400u64, 100_000] {
+            for r in [None, Some("bytes=1-3"), Some("bytes=0-0,5-6"), Some("bytes=0-398,1-"), Some("lines=1-2")] {
+                for ifr in [None, Some(&b"\"v1\""[..]), Some(&b"\"zz\""[..])] {
+                    let mut req = Req::new("GET");
+                    if let Some(r) = r {
+                        req = req.with("range", r.as_bytes());
+                    }
+                    if let Some(v) = ifr {
+                        req = req.with("if-range", v);
+                    }
+                    let hdrs: Vec<(String, Vec<u8>)> = if mode == 2 { vec![("accept-ranges".into(), b"bytes".to_vec()), ("content-type".into(), b"text/plain".to_vec())] } else { gen::header_sets()[3].clone() };
+                    let mut e = ent(l, Some(b"\"v1\""), Some(gen::t(gen::LM, 0)), hdrs, vec![]);
+                    e.hdr_mode = mode;
+                    extra.push((req, e));
+                }
+            }
+        }
+    }
     let st2 = par_for(extra.len() as u64, threads(), |i, st| {
         let (r, e) = &extra[i as usize];
         pair(r, e, st, (1 << 60) + i, &prop);
@@ -1814,7 +1880,7 @@ pub fn run_in_tokio(prop: &str) -> Stats {
     let mut cases: Vec<(Req, EntSpec)> = Vec::new();
     let ones = |n: u64| Script::of(vec![crate::ent::Ev::Data(1); n as usize]);
     let hs = gen::header_sets();
-    for n in [100u64, 129, 300, 1000] {
+    for n in [100u64, 129, 300, 1000, 1025, 3000] {
         cases.push((Req::new("GET"), ent(n, Some(b"\"v1\""), None, hs[1].clone(), vec![ones(n)])));
         cases.push((Req::new("GET").with("range", format!("bytes=10-{}", 10 + n - 1).as_bytes()), ent(5000, Some(b"\"v1\""), None, hs[1].clone(), vec![ones(n)])));
         cases.push((Req::new("GET").with("range", format!("bytes=0-{},50000-{}", n - 1, 50_000 + n - 1).as_bytes()), ent(1_000_000, Some(b"\"v1\""), None, hs[1].clone(), vec![ones(n), ones(n)])));
@@ -1822,8 +1888,10 @@ pub fn run_in_tokio(prop: &str) -> Stats {
         cases.push((Req::new("GET").with("range", format!("bytes=7-9,50000-{}", 50_000 + n - 1).as_bytes()), ent(1_000_000, Some(b"\"v1\""), None, hs[0].clone(), vec![Script::whole(3), ones(n)])));
     }
     let mut st = Stats::new();
-    for (i, (req, e)) in cases.iter().enumerate() {
-        let Some(obs) = osv::run_serve_with(req, e, 2, 10 * HORIZON, true) else { continue };
+    // each case inside a tokio task and by the hand-rolled poll loop
+    let cases2: Vec<(Req, EntSpec, bool)> = cases.iter().flat_map(|(r, e)| [(r.clone(), e.clone(), true), (r.clone(), e.clone(), false)]).collect();
+    for (i, (req, e, in_tokio)) in cases2.iter().enumerate() {
+        let Some(obs) = osv::run_serve_with(req, e, 2, 10 * HORIZON, *in_tokio) else { continue };
         st.evaluations += 1;
         let m = model(req, e);
         let mut fs: Vec<Finding> = Vec::new();
@@ -1836,11 +1904,55 @@ pub fn run_in_tokio(prop: &str) -> Stats {
         st.outcome(format!("tokio/{}", obs.status));
         for f in fs {
             if f.props.contains(&prop) {
-                st.violation((1 << 63) + i as u64, format!("{}:inside-a-tokio-task", f.key), format!("{} (body drained inside a tokio task; {} frames)", f.msg, obs.body.steps.len()), || {
+                st.violation((1 << 63) + i as u64, format!("{}:{}", f.key, if *in_tokio { "inside-a-tokio-task" } else { "many-frames" }), format!("{} ({}; {} frames)", f.msg, if *in_tokio { "body drained inside a tokio task" } else { "hundreds of ready chunks" }, obs.body.steps.len()), || {
                     let mut c = case_json(req, e, 2);
-                    c["in_tokio_task"] = json!(true);
+                    c["in_tokio_task"] = json!(*in_tokio);
                     c
                 });
+            }
+        }
+    }
+    st
+}
+
+// -------------------------------------------------------------------------------------------
+// Entity streams that must not be polled after their end
+
+/// Honest entity streams that PANIC when polled again after they returned `None` (as
+/// `futures_util::stream::unfold`, the combinator behind `ChunkedReadFile`, does): the body is
+/// drained to its end and not polled further. A body that polls an entity stream once too often
+/// crashes here although every stream delivered exactly its range.
+pub fn run_strict_streams(prop: &str) -> Stats {
+    let mut cases: Vec<(Req, EntSpec)> = Vec::new();
+    let hs = gen::header_sets();
+    let strict = |mut s: Script| {
+        s.tail = crate::ent::Tail::Strict;
+        s
+    };
+    for scr in gen::honour_scripts(5, 3, 1, 4) {
+        cases.push((Req::new("GET"), ent(5, Some(b"\"v1\""), None, hs[1].clone(), vec![strict(scr.clone())])));
+        cases.push((Req::new("GET").with("range", b"bytes=2-6"), ent(100, Some(b"\"v1\""), None, hs[1].clone(), vec![strict(scr.clone())])));
+        for other in gen::honour_scripts(5, 2, 0, 2) {
+            cases.push((Req::new("GET").with("range", b"bytes=2-6,50002-50006"), ent(100_000, Some(b"\"v1\""), None, hs[0].clone(), vec![strict(scr.clone()), strict(other.clone())])));
+            cases.push((Req::new("GET").with("range", b"bytes=2-6,50002-50006,7-11"), ent(100_000, Some(b"\"v1\""), None, hs[1].clone(), vec![strict(other.clone()), strict(scr.clone()), strict(other.clone())])));
+        }
+    }
+    cases.push((Req::new("GET"), ent(0, Some(b"\"v1\""), None, vec![], vec![strict(Script::of(vec![]))])));
+    let mut st = Stats::new();
+    for (i, (req, e)) in cases.iter().enumerate() {
+        let Some(obs) = run_serve(req, e, 0, HORIZON) else { continue };
+        st.evaluations += 1;
+        let m = model(req, e);
+        let mut fs: Vec<Finding> = Vec::new();
+        check(req, e, &obs, &m, &mut fs);
+        let s0 = st.state(&("strict", obs.status, e.scripts.len()));
+        let s1 = st.state(&("strict-end", obs.body.first_terminal().map(|t| obs.body.steps[t].1.kind())));
+        st.transition(s0, 0, s1);
+        st.nontrivial(&("strict", i));
+        st.count("bodies_over_streams_that_forbid_polls_after_their_end", 1);
+        for f in fs {
+            if f.props.contains(&prop) {
+                st.violation((1 << 63) + (1 << 40) + i as u64, format!("{}:strict-entity-stream", f.key), format!("{} (entity streams that must not be polled after their end; no poll after the body's end)", f.msg), || case_json(req, e, 0));
             }
         }
     }
